@@ -11,7 +11,9 @@ tfmodisco_seqlets: the window-score tensor handed to `_iterative_extract_seqlets
 captured by wrapping that module-level function for the duration of the call.
 """
 import ast
+import contextlib
 import inspect
+import signal
 import textwrap
 
 import numpy
@@ -131,6 +133,35 @@ def prebuild():
 
 
 # ----------------------------------------------------------------------------------------
+# a changed implementation may loop forever (both extraction loops end only because a cell is
+# overwritten each round); the pure-Python runs are interrupted by SIGALRM
+
+class ImplTimeout(Exception):
+    pass
+
+
+@contextlib.contextmanager
+def time_limit(seconds):
+    def handler(signum, frame):
+        raise ImplTimeout()
+    try:
+        old = signal.signal(signal.SIGALRM, handler)
+    except ValueError:          # not the main thread: no limit
+        yield
+        return
+    signal.alarm(seconds)
+    try:
+        yield
+    finally:
+        signal.alarm(0)
+        signal.signal(signal.SIGALRM, old)
+
+
+_TIMEOUTS = [0]
+PY_LIMIT = 120      # seconds for one instrumented pure-Python kernel run (normally < 3 s)
+TF_LIMIT = 20       # seconds for one tfmodisco_seqlets call (normally < 1 s)
+
+# ----------------------------------------------------------------------------------------
 # inputs
 
 def make_track(inp):
@@ -169,8 +200,31 @@ def run_rec(inp):
     dt = numpy.float32 if inp['dtype'] == 'f32' else numpy.float64
     Xnp = numpy.ascontiguousarray(X64.astype(dt))
     args = (inp['thr'], inp['min'], inp['max'], inp['flanks'])
-    out = {'kind': 'rec', 'X': [[float(v) for v in row] for row in Xnp]}
-    # public function
+    out = {'kind': 'rec', 'X': [[float(v) for v in row] for row in Xnp], 'pub': None, 'jit': None,
+           'py': None, 'caps': None, 'unchanged': True}
+    # 1. instrumented pure-Python kernel (interruptible: run first, the compiled runs are
+    #    skipped when it does not terminate)
+    caps = []
+    try:
+        run = split_kernel()
+    except SplitError as e:
+        out['split_error'] = str(e)
+        run = None
+    if run is not None:
+        try:
+            with time_limit(PY_LIMIT):
+                raw = run(Xnp.copy(), *args, lambda i, pm, cs: caps.append((int(i), pm, cs)))
+            out['py'] = _rows(list(raw))
+        except ImplTimeout:
+            out['timeout'] = True
+            _TIMEOUTS[0] += 1
+            return out
+        except Exception as e:
+            out['py_exc'] = repr(e)[:200]
+        if [c[0] for c in caps] == list(range(len(caps))) and len(caps) == Xnp.shape[0]:
+            out['caps'] = [{'pm': numpy.asarray(pm, dtype=numpy.float64).tolist(),
+                            'cs': [float(v) for v in numpy.asarray(cs).ravel()]} for _, pm, cs in caps]
+    # 2. public function
     Xpub = torch.from_numpy(Xnp.copy()) if inp.get('container') == 'torch' else Xnp.copy()
     keep = Xpub.clone() if isinstance(Xpub, torch.Tensor) else Xpub.copy()
     try:
@@ -178,38 +232,17 @@ def run_rec(inp):
         out['cols'] = [str(c) for c in df.columns]
         out['pub'] = _rows(df.values.tolist())
     except Exception as e:
-        out['pub'] = None
         out['pub_exc'] = repr(e)[:200]
     same = torch.equal(Xpub, keep) if isinstance(Xpub, torch.Tensor) else \
         (Xpub.tobytes() == keep.tobytes() and Xpub.shape == keep.shape)
     out['unchanged'] = bool(same)
-    # compiled kernel
+    # 3. compiled kernel
     try:
         Xj = Xnp.copy()
         out['jit'] = _rows(list(seqlet._recursive_seqlets(Xj, *args)))
         out['unchanged'] = out['unchanged'] and Xj.tobytes() == Xnp.tobytes()
     except Exception as e:
-        out['jit'] = None
-    # instrumented pure-Python kernel
-    caps = []
-    try:
-        run = split_kernel()
-    except SplitError as e:
-        out['split_error'] = str(e)
-        out['py'] = None
-        out['caps'] = None
-        return out
-    try:
-        raw = run(Xnp.copy(), *args, lambda i, pm, cs: caps.append((int(i), pm, cs)))
-        out['py'] = _rows(list(raw))
-    except Exception as e:
-        out['py'] = None
-        out['py_exc'] = repr(e)[:200]
-    if [c[0] for c in caps] == list(range(len(caps))):
-        out['caps'] = [{'pm': numpy.asarray(pm, dtype=numpy.float64).tolist(),
-                        'cs': [float(v) for v in numpy.asarray(cs).ravel()]} for _, pm, cs in caps]
-    else:
-        out['caps'] = None
+        out['jit_exc'] = repr(e)[:200]
     return out
 
 
@@ -234,9 +267,14 @@ def run_tf(inp):
 
     seqlet._iterative_extract_seqlets = wrapper
     try:
-        df = seqlet.tfmodisco_seqlets(X, window_size=inp['window'], flank=inp['flank'],
-                                      target_fdr=inp.get('fdr', 0.2))
+        with time_limit(TF_LIMIT):
+            df = seqlet.tfmodisco_seqlets(X, window_size=inp['window'], flank=inp['flank'],
+                                          target_fdr=inp.get('fdr', 0.2))
         out['pub'] = _rows(df.values.tolist())
+    except ImplTimeout:
+        out['pub'] = None
+        out['timeout'] = True
+        _TIMEOUTS[0] += 1
     except Exception as e:
         out['pub'] = None
         out['pub_exc'] = repr(e)[:200]
@@ -496,6 +534,8 @@ def generate(tier, rng):
 
 
 def shrink(inp):
+    if _TIMEOUTS[0] > 3:        # a looping implementation: do not spend the run on shrinking
+        return
     n = inp.get('n', len(inp.get('X', [[]])))
     if 'X' not in inp:
         if n > 1:
